@@ -188,7 +188,30 @@ func calleeShort(key string) string {
 }
 
 // contractEnv binds a contract's parameter names to values.
+// fnTerm turns a known function value into a term (so it can be passed to contracts or stored); the
+// state remembers which function the term stands for.
+func (x *Exec) fnTerm(st *State, v Value) Value {
+	cv, ok := v.(ClosureV)
+	if !ok {
+		return v
+	}
+	var t *Term
+	if len(cv.Bind) == 0 {
+		t = Const("fn|"+cv.Fn.String(), IntS)
+	} else {
+		t = st.alloc()
+	}
+	st.clos[t.Key()] = cv
+	if len(cv.Bind) == 0 {
+		st.assume(Le(IntLit(1), t))
+	}
+	return t
+}
+
 func (x *Exec) contractEnv(st *State, c *Contract, sig *types.Signature, all []Value) *Env {
+	for i := range all {
+		all[i] = x.fnTerm(st, all[i])
+	}
 	env := &Env{eng: x.eng, st: st, vars: map[string]tv{}, pkg: x.eng.typesPkg(c.Pkg)}
 	if c.SpecPkg != "" {
 		env.pkg = x.eng.typesPkg(c.SpecPkg)
